@@ -14,12 +14,10 @@ EXTENDS ChainAdmissionLog
 
 CONSTANT Steps        \* length of an exported walk (entries of hist)
 VARIABLE base         \* simulation: the base chain the walk currently varies
-mvars == <<clock, cfg, mem, last, hist, base>>
 
 (* ---------- exhaustive small instance ---------- *)
 Lenient(o) == ~o.start.p /\ ~o.limit.p /\ ~o.onlyCA /\ o.ekus = {} /\ o.rejExts = {}
 FirstOf(S) == CHOOSE k \in S : \A j \in S : k <= j
-RowsWhere(P(_)) == {k \in 1..NOpts : P(OptTab[k])}
 SmallRows ==
   LET row(e, u) == FirstOf({k \in 1..NOpts : Lenient(OptTab[k]) /\ OptTab[k].rejExp = e /\ OptTab[k].rejUnexp = u})
       windowed == FirstOf({k \in 1..NOpts : LET o == OptTab[k] IN /\ o.rejExp /\ ~o.rejUnexp /\ ~o.start.p /\ o.limit = At(5)
@@ -27,6 +25,8 @@ SmallRows ==
   IN {row(FALSE, FALSE), row(TRUE, FALSE), row(FALSE, TRUE), windowed}
 PinnedRow == FirstOf({k \in 1..NOpts : Lenient(OptTab[k]) /\ OptTab[k].rejExp /\ ~OptTab[k].rejUnexp})
 SmallConfigs == {[T |-> "T1", k |-> k, pin |-> NoBound] : k \in SmallRows} \cup {[T |-> "T1", k |-> PinnedRow, pin |-> At(4)]}
+\* thorough: both trusted pools, every row pinned and unpinned
+BigConfigs == {[T |-> t, k |-> k, pin |-> p] : t \in {"T1", "T2"}, k \in SmallRows, p \in {NoBound, At(4)}}
 SmallChains == {<<"L2", "I2", "I1">>, <<"L2", "I2", "I1~f">>, <<"L2", "I2", "I1x">>, <<"LP", "P", "I1">>, <<"I2", "I1", "R1">>}
 SmallStarts == {3}
 SmallInit == Init /\ base = <<>>
@@ -43,13 +43,17 @@ AnyRows == {k \in 1..NOpts : Configurable(k)}
 SimBases == Bases \cup PlainBases
 
 \* base chains that are in order for a trusted pool (constant level: evaluated once)
-OKBases == [t \in TNames |-> LET S == {b \in SimBases : ChainOK(Recs(b), TRecs(t))} IN IF S = {} THEN SimBases ELSE S]
+\* and whose leaf is a certificate or a precertificate
+OKBases == [t \in TNames |-> LET S == {b \in SimBases : Kind(Cert[b[1]]) # "malformed" /\ ChainOK(Recs(b), TRecs(t))}
+                             IN IF S = {} THEN SimBases ELSE S]
+Half(S, P(_), coin) == LET R == {k \in S : P(k)} IN IF coin = 1 /\ R # {} THEN R ELSE S
 
 SimSetUp ==
-  \E t1 \in {RandomElement(TNames)}, t3 \in {RandomElement(TNames)}, k1 \in {RandomElement(ExpRows)},
-     k2 \in {RandomElement(UnexpRows)}, k3 \in {RandomElement(AnyRows)}, p \in {RandomElement(1..4)},
-     t0 \in {RandomElement(2..4)} :
-    \E b \in {RandomElement(OKBases[t1])} :
+  \E t1 \in {RandomElement(TNames)}, t3 \in {RandomElement(TNames)}, c1 \in {RandomElement(1..2)}, c2 \in {RandomElement(1..2)},
+     k3 \in {RandomElement(AnyRows)}, p \in {RandomElement(1..4)}, t0 \in {RandomElement(2..4)} :
+    \* half of the time options that ValidateChain can be handed directly as well
+    \E b \in {RandomElement(OKBases[t1])}, k1 \in {RandomElement(Half(ExpRows, Expressible, c1))},
+       k2 \in {RandomElement(Half(UnexpRows, Expressible, c2))} :
       LET pin3 == IF p = 1 /\ Expressible(k3) THEN At(4) ELSE IF p = 2 /\ Expressible(k3) THEN At(5) ELSE NoBound
       IN /\ SetUp(<<[T |-> t1, k |-> k1, pin |-> NoBound], [T |-> t1, k |-> k2, pin |-> NoBound],
                     [T |-> t3, k |-> k3, pin |-> pin3]>>, t0)
@@ -60,10 +64,11 @@ Fitting(ch) == IF ~Cert[ch[1]].parses THEN "validate"
                ELSE IF Kind(Cert[ch[1]]) = "precert" THEN "add-pre-chain" ELSE "add-chain"
 \* three steps in ten let time pass; the others submit: the chain served last again (3), a perturbation of the base
 \* (2), the base itself (1), a new base (1; three times in four one that is in order for logs 1 and 2).  Logs 1 and
-\* 2 (whose verdicts follow the clock) are asked twice as often as log 3; two times in three the fitting route.
+\* 2 (whose verdicts follow the clock) are asked twice as often as log 3; one time in four ValidateChain directly
+\* (where the options allow), otherwise two times in three the fitting endpoint.
 SimStep ==
   /\ cfg # NotSetUp /\ Len(hist) < Steps
-  /\ \E w \in {RandomElement(1..10)}, x \in {RandomElement(1..3)}, lw \in {RandomElement(1..5)}, rw \in {RandomElement(1..3)},
+  /\ \E w \in {RandomElement(1..10)}, x \in {RandomElement(1..3)}, lw \in {RandomElement(1..5)}, rw \in {RandomElement(1..3)}, vw \in {RandomElement(1..4)},
         q \in {RandomElement(Perturb(base))}, nb \in {RandomElement(SimBases)}, ob \in {RandomElement(OKBases[cfg[1].T])},
         bw \in {RandomElement(1..4)} :
        LET d == IF x = 3 THEN 2 ELSE 1
@@ -76,7 +81,8 @@ SimStep ==
        IN IF w <= 3 /\ clock + d <= MaxClock
           THEN Tick(d) /\ UNCHANGED base
           ELSE /\ \E r0 \in {RandomElement(RoutesOf(cfg[l]))} :
-                    Serve(l, ch, IF rw <= 2 /\ Fitting(ch) \in RoutesOf(cfg[l]) THEN Fitting(ch) ELSE r0)
+                    Serve(l, ch, IF vw = 1 /\ "validate" \in RoutesOf(cfg[l]) THEN "validate"
+                                 ELSE IF rw <= 2 /\ Fitting(ch) \in RoutesOf(cfg[l]) THEN Fitting(ch) ELSE r0)
                /\ base' = IF w = 10 THEN fresh ELSE base
 
 \* Simulation evaluates invariants on every candidate successor: the export hangs on a unique closing step.
